@@ -10,7 +10,7 @@ import common
 from common import finish
 from props import c03, c19
 
-C04_NODE = ("state-mismatch:finalized", "delete-finalized", "tiebreak-replaces-finalized-tip", "events-mismatch", "restart-fails", "tiebreak-refused")
+C04_NODE = ("accepts-invalid-via-sync:height", "reject-changes-state-via-sync:height", "state-mismatch:finalized", "delete-finalized", "tiebreak-replaces-finalized-tip", "events-mismatch", "restart-fails", "tiebreak-refused")
 C04_SYNC = ("finalized-height-decreased", "finalized-block-replaced")
 
 C04_NET = ("net:finalized-mismatch", "net:finalized-block-replaced", "net:finalized-block-missing")
